@@ -8,8 +8,8 @@
 (***************************************************************************)
 EXTENDS Find, TLC, Json
 CONSTANTS EmitVec
-VARIABLES ph, za, vty, vlp
-vars == <<ph, za, vty, vlp>>
+VARIABLES vPh, vZa, vty, vlp
+vars == <<vPh, vZa, vty, vlp>>
 G(s) == CNorm(4, DBYTab[370], s)
 Ty(off, dst, ch) == [off |-> off, dst |-> dst, des |-> <<ch, ch, ch>>]
 TypeLists == { <<>>, <<Ty(0, 0, 65)>>, <<Ty(0, 0, 65), Ty(3600, 1, 66)>> }
@@ -27,21 +27,21 @@ RuleOf(tys, trs) ==
     [k |-> "fixed", t |-> [base EXCEPT !.dst = 1 - @]],
     [k |-> "fixed", t |-> [base EXCEPT !.des = <<88, 89, 90>>]],
     [k |-> "fixed", t |-> [base EXCEPT !.des = <<>>]]})
-Init == ph = 0 /\ za = <<>> /\ vty \in TypeLists /\ vlp \in LeapLists
-Next == /\ ph = 0 /\ ph' = 1 /\ UNCHANGED <<vty, vlp>>
+Init == vPh = 0 /\ vZa = <<>> /\ vty \in TypeLists /\ vlp \in LeapLists
+Next == /\ vPh = 0 /\ vPh' = 1 /\ UNCHANGED <<vty, vlp>>
         /\ \E trs \in TrLists :
              \E rule \in RuleOf(vty, trs) :
-               za' = [tr |-> [i \in 1..Len(trs) |-> <<CDSToW(G(trs[i][1])), trs[i][2]>>], ty |-> vty,
+               vZa' = [tr |-> [i \in 1..Len(trs) |-> <<CDSToW(G(trs[i][1])), trs[i][2]>>], ty |-> vty,
                       lp |-> [i \in 1..Len(vlp) |-> <<CDSToW(G(vlp[i][1])), vlp[i][2]>>], rule |-> rule, via |-> "owned"]
 Spec == Init /\ [][Next]_vars
-Z == MkZone(za)
+Z == MkZone(vZa)
 V == ZoneVerdict(Z)
-WellFormed == ph = 1 =>
+WellFormed == vPh = 1 =>
   /\ (V = {} => /\ Len(Z.ty) > 0
                /\ \A i \in 1..NTr(Z) : Z.tr[i].ix < Len(Z.ty)
                /\ \A u \in {G(-1), G(0), G(1), G(2), G(3)} : LET o == Lookup(Z, u) IN o.ok # {} \/ o.err = {"NoAvailableLocalTimeType"})
   /\ "ok-or" \notin V                                    \* nothing is left open in the small model
   /\ (Cardinality(ZoneErrs14(Z)) = 1 /\ ~(Z.rule.k # "none" /\ NTr(Z) > 0) => Cardinality(V) = 1)
-Emit == (EmitVec /\ ph = 1) => PrintT(<<"VEC", ToJson([op |-> "zone", a |-> za, g |-> 1])>>)
+Emit == (EmitVec /\ vPh = 1) => PrintT(<<"VEC", ToJson([op |-> "zone", a |-> vZa, g |-> 1])>>)
 Inv == WellFormed /\ Emit
 =============================================================================
